@@ -2,12 +2,22 @@
 import itertools
 import core
 import tie
+import lib_c07plan as plan
 
 RULE = ("programs generated from a plan: every chain of depth <= 3 (quick) / <= 4 (thorough) over {bare block, if-true, "
         "if-false-else, else-if, while, for over list/string/object, call} with break/continue/return/nothing in the innermost "
         "body, every truth assignment of 3-condition if-chains, loop bodies that mutate the iterated container; the trace is "
         "predicted by a plan interpreter in the harness (no model involved); non-trivial = distinct predicted (trace, status): "
-        "plans that are predicted to behave alike count once")
+        "plans that are predicted to behave alike count once; exit shapes: loops (`while true` / `while (true)` / instrumented / "
+        "counted `while`, `for` over range/list/string/object) left by break / return / continue-then-break at the end of every "
+        "chain (depth <= 2) of positions {bare block, then, then without else, else, else-if, else-if without else, else after "
+        "else-if} guarded by the pass counter, with statements after the chain and after the loop, inside {top level, call, outer "
+        "loop, if, block, call in a loop}; random plans (every construct, several jump sites, counter-dependent conditions, only the "
+        "ones the plan interpreter sees terminate); `for` over strings with 2-/3-/4-byte characters (one pass per byte: keys, "
+        "pass count, value = byte at the key, reassembly, a jump at every byte index, literal / variable / concatenation / slice "
+        "iterables) and over objects whose keys are inserted out of order (prefixes, digits, empty, non-ASCII) with a jump at "
+        "every position; long runs: thousands of passes each leaving 1-3 blocks by continue / break / return, then plain and "
+        "recursive calls whose values are predicted")
 ASSUMPTIONS = ["conditions are instrumented through a user function t(tag, b) that prints its tag, so evaluation order is observable"]
 
 KINDS = ["block", "ift", "ife", "elif", "while", "forl", "fors", "foro", "call"]
@@ -274,6 +284,221 @@ def toplevel_jump_programs():
     return out
 
 
+# ---------------------------------------------------------------------------------------------------------------- exit shapes
+def exit_shape_cases(ctx):
+    """loops left by a jump at the end of a chain of block / if-arm positions; see lib_c07plan.exit_shape"""
+    if ctx.tier == "thorough":
+        keys = list(plan.exit_shape_plans(2))
+    else:
+        # every chain of depth <= 2 at top level and in a call for the loop heads that differ in kind; the other loop heads and
+        # wrappers with the chains of depth 1, plus a seeded sample of the rest
+        main_loops = ["wtrue", "wt", "wlt", "forl"]
+        keys = list(plan.exit_shape_plans(2, loops=main_loops, wrappers=["top", "fn"]))
+        have = set(keys)
+        keys += [k for k in plan.exit_shape_plans(1) if k not in have]
+        have = set(keys)
+        rest = [k for k in plan.exit_shape_plans(2) if k not in have]
+        keys += ctx.rng.sample(rest, 400)
+    cases = []
+    for k in keys:
+        body = plan.exit_shape(*k)
+        try:
+            out, st = plan.predict(body)
+        except plan.NonTerminating:                      # a chain of bare blocks only: its `continue` is taken on every pass
+            ctx.exclude("exit_shape_nonterminating")
+            continue
+        cases.append((("exit",) + k, plan.source(body), out, st))
+    return cases
+
+
+def random_plan_cases(ctx):
+    want = 4000 if ctx.tier == "thorough" else 600
+    cases = []
+    tries = 0
+    while len(cases) < want and tries < want * 4:
+        tries += 1
+        body = plan.random_plan(ctx.rng, max_depth=ctx.rng.choice([3, 4, 5]))
+        try:
+            out, st = plan.predict(body, limit=1500)
+        except plan.NonTerminating:
+            ctx.exclude("random_plan_nonterminating")
+            continue
+        if out.count("\n") < 4 or len(body) > 0 and len(plan.source(body)) > 8000:
+            continue                                    # ends before anything happens
+        cases.append((("random", len(cases)), plan.source(body), out, st))
+    return cases
+
+
+# ---------------------------------------------------------------------------------------------------------------- iteration order
+STRINGS = ["", "a", "abc", "é", "aé", "éa", "éé", "€", "a€b", "€1", "𝄞", "x𝄞y", "naïve", "日本", "añ€𝄞z"]
+
+
+def _lit(s):
+    return '"' + s + '"'
+
+
+def string_byte_programs():
+    """`for` over a string: one pass per byte, keys 0 .. n-1, the value is the byte at the key (`c == s[i]`, never empty), the
+    values put together give the text back (printed whole, and at the end of every character: only complete characters are
+    printed), and a jump keyed on any byte index - also one inside a character - fires exactly there"""
+    ps = []
+    tf = {True: "true", False: "false"}
+    for s in STRINGS:
+        b = s.encode()
+        n = len(b)
+        ends = []
+        pos = 0
+        for ch in s:
+            pos += len(ch.encode())
+            ends.append(pos - 1)
+        walk = (f"s := {_lit(s)}\npasses := 0\nacc := \"\"\nfor [i, c] in s {{\n    passes += 1\n    print(i)\n    print(c == s[i])\n"
+                "    print(c == \"\")\n    acc += c\n}\nprint(passes)\nprint(acc)\nprint(acc == s)\n")
+        ps.append((("str-walk", s), walk, "".join(f"{i}\ntrue\nfalse\n" for i in range(n)) + f"{n}\n{s}\ntrue\n", "0"))
+        for e in ends:
+            if n > 1:
+                src = f"acc := \"\"\nfor [i, c] in {_lit(s)} {{\n    acc += c\n    if i == {e} {{\n        print(acc)\n    }}\n}}\nprint(\"done\")\n"
+                ps.append((("str-prefix", s, e), src, b[:e + 1].decode() + "\ndone\n", "0"))
+        for j in range(n):
+            for jump in ("break", "continue", "return i + 1000"):
+                src = (f"fn walk(s) {{\n    seen := 0\n    for [i, c] in s {{\n        if i == {j} {{\n            {jump}\n        }}\n"
+                       "        seen += 1\n        print(i)\n    }\n    print(\"after\")\n    return seen\n}\n" + f"print(walk({_lit(s)}))\n")
+                if jump == "break":
+                    out = "".join(f"{i}\n" for i in range(j)) + f"after\n{j}\n"
+                elif jump == "continue":
+                    out = "".join(f"{i}\n" for i in range(n) if i != j) + f"after\n{n - 1}\n"
+                else:
+                    out = "".join(f"{i}\n" for i in range(j)) + f"{1000 + j}\n"
+                ps.append((("str-jump", s, j, jump.split()[0]), src, out, "0"))
+        # the iterable given by other expressions: a variable, a concatenation (also one that cuts a character in two), a slice
+        # that starts or ends inside a character (its text is not printable: compared instead), a grown copy (snapshot)
+        for k in range(n + 1):
+            for name, expr, bb in (("cat", f"s[:{k}] + s[{k}:]", b), ("tail", f"s[{k}:]", b[k:]), ("head", f"s[:{k}]", b[:k])):
+                if n == 0 or (name == "cat" and k in (0, n)):
+                    continue
+                src = (f"s := {_lit(s)}\nu := {expr}\npasses := 0\nok := true\nacc := \"\"\nfor [i, c] in {expr} {{\n    passes += 1\n    print(i)\n"
+                       "    ok = ok && c == u[i]\n    acc += c\n}\nprint(passes)\nprint(ok)\nprint(acc == u)\n")
+                ps.append((("str-" + name, s, k), src, "".join(f"{i}\n" for i in range(len(bb))) + f"{len(bb)}\ntrue\ntrue\n", "0"))
+        if n:
+            src = f"s := {_lit(s)}\npasses := 0\nfor [i, c] in s {{\n    s += \"é\"\n    s = \"é\" + s\n    passes += 1\n}}\nprint(passes)\nprint(s->len())\n"
+            ps.append((("str-grow", s), src, f"{n}\n{n + 4 * n}\n", "0"))
+    return ps
+
+
+OBJECT_KEYS = [["b", "a"], ["b", "ab", "a", "ba"], ["9", "10", "1"], ["z", "", "a"], ["é", "z", "e", "f"], ["abc", "ab", "a", "b", "aa"],
+               ["k2", "k10", "k1"], ["€", "é", "~", "a"]]
+
+
+def object_order_programs():
+    """`for` over an object walks its properties by ascending key (keys are strings: byte order = code point order) whatever
+    the order they were written or added in; a jump at any position stops / skips exactly there; lists go by index"""
+    ps = []
+    for keys in OBJECT_KEYS:
+        order = sorted(keys, key=lambda k: k.encode())
+        val = {k: 10 + i for i, k in enumerate(keys)}
+        builds = {"literal": "o := {" + ", ".join(f"{_lit(k)}: {val[k]}" for k in keys) + "}\n",
+                  "added": "o := {}\n" + "".join(f"o[{_lit(k)}] = {val[k]}\n" for k in keys),
+                  "reversed": "o := {" + ", ".join(f"{_lit(k)}: {val[k]}" for k in reversed(keys)) + "}\n"}
+        for bname, build in builds.items():
+            src = build + "for [k, v] in o {\n    print(k)\n    print(v)\n}\nprint(\"done\")\n"
+            ps.append((("obj-walk", tuple(keys), bname), src, "".join(f"{k}\n{val[k]}\n" for k in order) + "done\n", "0"))
+        for p in range(len(keys)):
+            for jump in ("break", "continue", "return v + 1000"):
+                src = (builds["literal"] + f"fn walk() {{\n    seen := 0\n    for [k, v] in o {{\n        if k == {_lit(order[p])} {{\n            {jump}\n"
+                       "        }\n        seen += 1\n        print(k)\n    }\n    print(\"after\")\n    return seen\n}\nprint(walk())\n")
+                if jump == "break":
+                    out = "".join(f"{k}\n" for k in order[:p]) + f"after\n{p}\n"
+                elif jump == "continue":
+                    out = "".join(f"{k}\n" for k in order if k != order[p]) + f"after\n{len(keys) - 1}\n"
+                else:
+                    out = "".join(f"{k}\n" for k in order[:p]) + f"{1000 + val[order[p]]}\n"
+                ps.append((("obj-jump", tuple(keys), p, jump.split()[0]), src, out, "0"))
+    for n in (0, 1, 4):
+        xs = [3 * i + 1 for i in range(n)]
+        for j in range(n):
+            for jump in ("break", "continue", "return v + 1000"):
+                src = (f"fn walk(xs) {{\n    seen := 0\n    for [i, v] in xs {{\n        if i == {j} {{\n            {jump}\n        }}\n"
+                       f"        seen += 1\n        print(i)\n        print(v)\n    }}\n    print(\"after\")\n    return seen\n}}\nprint(walk({xs}))\n")
+                if jump == "break":
+                    out = "".join(f"{i}\n{xs[i]}\n" for i in range(j)) + f"after\n{j}\n"
+                elif jump == "continue":
+                    out = "".join(f"{i}\n{xs[i]}\n" for i in range(n) if i != j) + f"after\n{n - 1}\n"
+                else:
+                    out = "".join(f"{i}\n{xs[i]}\n" for i in range(j)) + f"{1000 + xs[j]}\n"
+                ps.append((("list-jump", n, j, jump.split()[0]), src, out, "0"))
+    return ps
+
+
+# ---------------------------------------------------------------------------------------------------------------- long runs
+NESTS = {"direct": "@J", "if": "if @C {\n@J\n}", "block": "{\n@J\n}", "block-if": "{\nif @C {\n@J\n}\n}", "if-block": "if @C {\n{\n@J\n}\n}",
+         "else": "if @N {\nz += 1\n} else {\n@J\n}", "elif": "if @N {\nz += 1\n} else if @C {\n@J\n}", "if-if-block": "if @C {\nif @C {\n{\n@J\n}\n}\n}"}
+
+
+def long_run_programs(n):
+    """`n` passes that each leave their blocks by a jump behave like the first one, and what comes after - a call, a recursive
+    call, another loop - is not affected: the jump does nothing but reach its target"""
+    tail = ("fn id(v) {\n    return v\n}\nfn sum(k) {\n    if k == 0 {\n        return 0\n    }\n    return k + sum(k - 1)\n}\n"
+            "print(id(42))\nprint(sum(40))\nfor [_, v] in [1, 2] {\n    if v == 1 {\n        continue\n    }\n    print(id(v))\n}\nprint(\"end\")\n")
+    tail_out = "42\n820\n2\nend\n"
+    ps = []
+    for nest_name, nest in NESTS.items():
+        for loop in ("while", "for"):
+            head = f"i := 0\nwhile i < {n} {{\n    i += 1\n" if loop == "while" else f"for [_, i] in 1 .. {n + 1} {{\n"
+            # continue on all passes but every 7th
+            body = nest.replace("@C", "i % 7 != 0").replace("@N", "i % 7 == 0").replace("@J", "continue")
+            src = "z := 0\ncount := 0\n" + head + "tmp := i\n" + body + "\ncount += tmp\n}\nprint(count)\n" + tail
+            if nest_name in ("direct", "block"):
+                exp = 0
+            else:
+                exp = sum(i for i in range(1, n + 1) if i % 7 == 0)
+            ps.append((("long", "continue", nest_name, loop, n), src, f"{exp}\n" + tail_out, "0"))
+            # an inner loop left by break on every pass of the outer one
+            body = nest.replace("@C", "j == 2").replace("@N", "j != 2").replace("@J", "break")
+            src = ("z := 0\ncount := 0\n" + head + "j := 0\nwhile true {\nj += 1\ntmp := j\n" + body + "\ncount += 1\n}\ncount += j\n}\nprint(count)\n" + tail)
+            exp = n * (1 if nest_name in ("direct", "block") else 3)
+            ps.append((("long", "break", nest_name, loop, n), src, f"{exp}\n" + tail_out, "0"))
+            # a call left by return on every pass
+            body = nest.replace("@C", "k % 7 != 0").replace("@N", "k % 7 == 0").replace("@J", "return k + 1")
+            src = ("z := 0\nfn g(k) {\ntmp := k\n" + body + "\nreturn 0\n}\ncount := 0\n" + head + "count += g(i)\n}\nprint(count)\n" + tail)
+            if nest_name in ("direct", "block"):
+                exp = sum(i + 1 for i in range(1, n + 1))
+            else:
+                exp = sum(i + 1 for i in range(1, n + 1) if i % 7 != 0)
+            ps.append((("long", "return", nest_name, loop, n), src, f"{exp}\n" + tail_out, "0"))
+    return ps
+
+
+def judge(ctx, label, cases, model_ok, what, sig, fuel=3000000, reconfirm=True):
+    """leg B on the whole stream, leg C = the planted prediction; the shortest failing inputs (one per class `sig(key)`, at most
+    four) are confirmed through the command line and reported"""
+    if not cases:
+        return
+    impl, dis = tie.run(ctx, [c[1] for c in cases], label, model_ok, project=tie.proj_out_status, fuel=fuel, reconfirm=reconfirm)
+    bad = []
+    for (key, src, exp_out, exp_st), r in zip(cases, impl):
+        ctx.nontrivial((exp_out, exp_st))
+        ctx.dist("predicted:" + exp_st)
+        ctx.dist(label + ":" + str(sig(key)))
+        if not oracle_one(ctx, src, r, (exp_out, exp_st))[0]:
+            bad.append((key, src, exp_out, exp_st))
+    bad.sort(key=lambda b_: len(b_[1]))
+    reported = set()
+    for key, src, exp_out, exp_st in bad:
+        if sig(key) in reported or len(reported) >= 4:
+            continue
+        c = core.run_cli(src)
+        ctx.cov["cli_reconfirmed"] += 1
+        ok, why = oracle_one(ctx, src, c, (exp_out, exp_st))
+        if ok:
+            continue
+        reported.add(sig(key))
+        ctx.violation(what(key) + ": " + why[:600], src, {"plan": str(key), "predicted_stdout": exp_out[:2000], "predicted_status": exp_st,
+                                                          "cli": {k: v[:2000] for k, v in c.items()}, "failing_cases_in_stream": len(bad)})
+    explained = {b_[1] for b_ in bad}
+    tie.report_disagreements(ctx, [d for d in dis if d[0] not in explained], label)
+    k = len(cases) * 2 // 3
+    ctx.sample({"plan": str(cases[k][0]), "src": cases[k][1][:400], "predicted": cases[k][2][:200], "impl": impl[k]["stdout"][:200]})
+
+
 def oracle_one(ctx, src, r, expected=None):
     if expected is None:
         return True, ""
@@ -330,3 +555,19 @@ def run(ctx, model_ok):
         if cs:
             k = len(cs) * 2 // 3
             ctx.sample({"plan": str(cs[k][0]), "src": cs[k][1][:400], "predicted": cs[k][2][:200], "impl": impl[k]["stdout"][:200]})
+    # exit shapes and random plans share one stream (one differential run); failing inputs are reported per loop head / per kind
+    judge(ctx, "plans", exit_shape_cases(ctx) + random_plan_cases(ctx), model_ok,
+          lambda key: "a loop left by a jump: control did not go on where the statement says" if key[0] == "exit"
+          else "control flow did not reach its target", lambda key: key[:2] if key[0] == "exit" else key[0])
+    judge(ctx, "iteration", string_byte_programs() + object_order_programs(), model_ok,
+          lambda key: "`for` did not walk the string bytes / object keys / list indexes in order", lambda key: key[0])
+    # quick: every jump x nest, the loop kinds alternating; thorough: all of them, and a few seven times as long.  (The hook-vs-CLI
+    # sampling of tie.run is left to the other streams: a failing case is confirmed through the command line in any case.)
+    longs = long_run_programs(3000)
+    if ctx.tier == "thorough":
+        longs += long_run_programs(20000)[::5]
+    else:
+        longs = [c for n, c in enumerate(longs) if (n // 3 + n // 6) % 2 == 0]
+    judge(ctx, "long_run", longs, model_ok,
+          lambda key: "after many passes left by a jump, control flow no longer behaves as on the first pass", lambda key: key[:2],
+          fuel=400000, reconfirm=False)
